@@ -83,6 +83,26 @@ def region_of(scen, judged, oracle):
     return None
 
 
+TIMING_ORACLES = {"no_hang", "lost_future", "thread_alive_at_end", "ghost_process_at_end"}
+
+
+def confirm_timing(m, prop, scen, tries=2):
+    """Re-run a scenario whose only failing oracles depend on a time limit with three times the limits (same schedule seed).
+    Returns (out, judged) of the first re-run in which a relevant oracle fails again, None when none does."""
+    s2 = copy.deepcopy(clean(scen))
+    s2["timeout"] = 3 * scen.get("timeout", 10)
+    s2["settle"] = 3 * scen.get("settle", 6)
+    for _ in range(tries):
+        out = eb.run_many([s2], jobs=1)[0]
+        try:
+            judged = eb.judge(m, s2, out)
+        except InfraError:
+            continue
+        if relevant(prop, judged, s2):
+            return out, judged
+    return None
+
+
 def relevant(prop, judged, scen):
     out = []
     for o in judged["oracles"]:
@@ -119,6 +139,7 @@ def campaign(ctx: Ctx, prop: str, profile: dict, n: int, corpus: list, required_
     known_hits = {}
     rounds = 0
     validated = 0
+    timing_confirmed, timing_tried = set(), {}
     while True:
         outs = eb.run_many(scens, jobs=int(os.environ.get("VERIF_JOBS", "12")))
         for scen, out in zip(scens, outs):
@@ -155,6 +176,28 @@ def campaign(ctx: Ctx, prop: str, profile: dict, n: int, corpus: list, required_
                     known_hits.setdefault(reg["region"], []).append(o["oracle"])
                 else:
                     unknown.append((sig, o))
+            if unknown and all(o["oracle"] in TIMING_ORACLES for _, o in unknown):
+                # decided by a time limit: a loaded machine can produce it on correct code; it counts only when it
+                # happens again with three times the limits
+                tkey = (tuple(sorted(o["oracle"] for _, o in unknown)), bool(scen["executor"].get("block_allocation")),
+                        bool(scen["executor"].get("disable_dependencies")))
+                if tkey in timing_confirmed:
+                    conf = (out, judged)
+                elif timing_tried.get(tkey, 0) >= 3:
+                    conf = None
+                else:
+                    timing_tried[tkey] = timing_tried.get(tkey, 0) + 1
+                    conf = confirm_timing(m, prop, scen)
+                    if conf is not None:
+                        timing_confirmed.add(tkey)
+                if conf is None:
+                    ctx.count("timing_oracle_not_confirmed")
+                    unknown = []
+                else:
+                    out, judged = conf
+                    unknown = [(dict(region_of(scen, judged, o) or {}, oracle=o["oracle"]), o) for o in relevant(prop, judged, scen)]
+                    unknown = [(sg, o) for sg, o in unknown if not (sg.get("region") and any(
+                        k.get("status") == "known" and k.get("signature", {}).get("region") == sg["region"] for k in ctx.known))]
             if unknown:
                 fails.append((scen, out, judged, unknown))
             else:
